@@ -11,6 +11,14 @@ import zlib
 
 import common
 
+QUICK = [False]
+
+
+def SKIP(doc, pos):
+    """quick tier: in documents longer than 28 characters two of three positions are skipped (chosen by a hash of the document)"""
+    n = len(doc)
+    return QUICK[0] and n > 28 and 2 < pos < n - 2 and (pos + zlib.crc32(doc.encode())) % 3 != 0
+
 NONE = '<none>'
 
 
@@ -25,6 +33,8 @@ def _html_chunk(vecs):
         case0 = {'doc': doc}
         try:
             for pos, at in enumerate(v['at']):
+                if SKIP(doc, pos):
+                    continue
                 npos += 1
                 case = dict(case0, pos=pos)
                 with common.Alarm(10):
@@ -73,6 +83,8 @@ def _css_chunk(vecs):
         case0 = {'doc': doc, 'flags': flags}
         try:
             for pos, at in enumerate(v['at']):
+                if SKIP(doc, pos):
+                    continue
                 npos += 1
                 case = dict(case0, pos=pos)
                 with common.Alarm(10):
@@ -116,6 +128,7 @@ def _css_chunk(vecs):
 
 def run(out):
     quick = out.tier == 'quick'
+    QUICK[0] = quick
     out.rule = ('one case per (document or stylesheet generated by HtmlDoc.tla / CssDoc.tla, position); every helper is called at every '
                 'position; non-trivial = positions with a non-empty expected answer; distinct by (document, position)')
     out.assumptions = ['not judged (statement silent): get_open_tag inside a closing tag; select_item_css next strictly inside a declaration '
@@ -125,7 +138,7 @@ def run(out):
            ('html-class-and-attributes', dict(constants={'MaxSeg': 4 if quick else 6, 'MaxDepth': 2, 'SegIdx': {2, 3, 5, 20, 21, 22} if quick else {3, 5, 20, 21, 22},
                                                          'XmlModes': {False}})),
            ('html-simulated', dict(constants={'MaxSeg': 14 if quick else 25, 'MaxDepth': 6, 'SegIdx': set(range(1, 25)), 'XmlModes': {False}},
-                                   simulate=5 if quick else 150, depth=15 if quick else 26, seed=out.seed))]
+                                   simulate=3 if quick else 60, depth=15 if quick else 26, seed=out.seed))]
     base = dict(MaxDepth=3, Fillers={" ", "/* {;:} */", "NL", "C2"}, Loose=True, SemiInParens=False, NoSemi=False)
     cin = [('css-exhaustive', dict(constants=dict(base, MaxSeg=3 if quick else 4, SelIdx={1, 2, 3, 5} if quick else {1, 2, 3}, ValIdx={1, 2, 3, 4}, NameIdx={1, 2}))),
            ('css-all-shapes', dict(constants=dict(base, MaxSeg=2 if quick else 3, SelIdx={1, 2, 3, 4, 5, 6}, ValIdx={1, 2, 3, 4, 5, 6}, NameIdx={1, 2, 3, 4}))),
@@ -134,7 +147,7 @@ def run(out):
            ('css-no-semicolon', dict(constants=dict(base, MaxSeg=4 if quick else 5, SelIdx={1, 2}, ValIdx={1, 4}, NameIdx={1}, Fillers={" "}, Loose=False, NoSemi=True))),
            ('css-semicolon-in-parentheses', dict(constants=dict(base, MaxSeg=3, SelIdx={1}, ValIdx={1}, NameIdx={1}, Fillers={" "}, Loose=False, SemiInParens=True))),
            ('css-simulated', dict(constants=dict(base, MaxSeg=12 if quick else 20, MaxDepth=4, SelIdx={1, 2, 3, 4, 5, 6}, ValIdx={1, 2, 3, 4, 5, 6}, NameIdx={1, 2, 3, 4}),
-                                  simulate=1 if quick else 150, depth=13 if quick else 21, seed=out.seed))]
+                                  simulate=3 if quick else 60, depth=13 if quick else 21, seed=out.seed))]
     nontrivial = 0
     for module, cfg, insts, fn in (('HtmlDoc', 'HtmlActions', hin, _html_chunk), ('CssDoc', 'CssActions', cin, _css_chunk)):
         for name, kw in insts:
@@ -146,6 +159,8 @@ def run(out):
             vecs = {}
             for v in r.vectors():
                 vecs.setdefault(v['doc'], v)
+            if r.mode == 'simulate':
+                vecs = dict(common.sample(vecs.items(), 250 if quick else 8000, out.seed, key=lambda kv: repr(kv[0])))
             if r.mode == 'bfs':
                 out.exhaustive = r.exhaustive if out.exhaustive is None else (out.exhaustive and r.exhaustive)
             res = common.pool_map(fn, list(vecs.values()), chunk=300)
